@@ -78,7 +78,7 @@ proof fn lemma_flat_rings_len<T: CoordNum>(p: Polygon<T>, k: int)
             vertices@ == flat_rings(*polygon, it.index@),
             interior_indexes@.len() == it.index@,
             forall|i: int| 0 <= i < it.index@ ==> #[trigger] interior_indexes@[i] as int == hole_start(*polygon, i),
-//@before 1 `interior_indexes.push(vertices.len() / 2);`
+//@loopentry 1
             proof { lemma_flat_rings_len(*polygon, it.index@); }
 //@end
 
